@@ -37,6 +37,19 @@ func init() {
 	verifScenarios["C36"] = verifsim.Scenario{Bubble: true, Fn: c36Run}
 }
 
+// c36Run: two engines behind one scenario key. Engine 0: histories of
+// heartbeat actions (signing executor stubbed). Engine 1: the real signing
+// retry loops of all members of a wallet whose signing group may be smaller
+// than the configured group size (c11.go); what is judged there is the
+// activity report the heartbeat's inactivity claim is built from.
+func c36Run(t *testing.T, r *verifsim.Run) {
+	if r.T.Weighted("c36-engine", 3, 1) == 1 {
+		c11Engine(t, r, "C36")
+		return
+	}
+	c36Histories(t, r)
+}
+
 const (
 	c36GroupSize      = 100
 	c36RequiredActive = 70 // documented minimum of active members for a valid heartbeat
@@ -76,9 +89,12 @@ type c36Action struct {
 
 	// model
 	signDecided bool
-	expectClaim bool // a claim is due under every reading of "consecutive"
-	allowClaim  bool // a claim is due under the lenient reading (errors do not break a run)
-	why         string
+	// the signing executor was reached although the operator is unstaking or
+	// the proposal is invalid
+	signedDespite bool
+	expectClaim   bool // a claim is due under every reading of "consecutive"
+	allowClaim    bool // a claim is due under the lenient reading (errors do not break a run)
+	why           string
 }
 
 func (a *c36Action) sign(ctx context.Context, message *big.Int, startBlock uint64) (*tecdsa.Signature, *signingActivityReport, uint64, error) {
@@ -108,7 +124,7 @@ func (a *c36Action) claimInactivity(ctx context.Context, inactive []group.Member
 	return nil
 }
 
-func c36Run(t *testing.T, r *verifsim.Run) {
+func c36Histories(t *testing.T, r *verifsim.Run) {
 	tp := r.T
 	nWallets := 1 + tp.Choose("wallets", 3)
 	histLen := 4 + tp.Choose("history", 22)
@@ -178,6 +194,20 @@ func c36Run(t *testing.T, r *verifsim.Run) {
 				r.Inconclusive("heartbeat-not-signed")
 				return
 			}
+		}
+		if a.signedDespite {
+			cls := "C36:invalid-proposal-signed"
+			if a.unstaking {
+				cls = "C36:heartbeat-signed-while-unstaking"
+			}
+			if len(claims) > 0 {
+				cls = "C36:claim-on-invalid-proposal"
+				if a.unstaking {
+					cls = "C36:claim-while-unstaking"
+				}
+			}
+			r.Failf(cls, "action %d wallet %d: %s, yet the heartbeat was handed to the signing executor (outcome %d, %d active) and %d inactivity claim(s) followed", a.id, a.wallet, a.why, a.outKind, len(a.active), len(claims))
+			return
 		}
 		if !a.allowClaim {
 			if len(claims) > 0 {
@@ -396,35 +426,49 @@ func c36Run(t *testing.T, r *verifsim.Run) {
 				r.Fault("signing-deadline")
 			}
 			a.signDecided = true
-			// model
-			switch a.outKind {
-			case 0:
-				model[w] = 0
-				strict[w] = 0
-				a.why = "the heartbeat succeeded with enough active members"
-			case 1:
-				model[w]++
-				strict[w]++
-				if model[w] >= c36ClaimAfter && len(a.inactive) > 0 {
-					a.allowClaim = true
-					a.expectClaim = strict[w] >= c36ClaimAfter
-					if !a.expectClaim {
-						r.Probe("claim-due-only-under-lenient-reading")
-					}
-					a.why = fmt.Sprintf("this is consecutive low-activity heartbeat #%d of the wallet (%d/%d active)", model[w], len(a.active), c36GroupSize)
-					if model[w] > c36ClaimAfter {
-						r.Probe("claim-expected-beyond-third")
-					}
-				} else if len(a.inactive) == 0 {
-					a.why = "the set of inactive members is empty"
-				} else {
-					a.why = fmt.Sprintf("this is only consecutive low-activity heartbeat #%d of the wallet", model[w])
+			if a.unstaking || a.validity != 0 {
+				// must not get here: no signing, no counter change, no claim
+				a.signedDespite = true
+				a.why = "the proposal is invalid"
+				if a.unstaking {
+					a.why = "the operator is unstaking"
 				}
-			default:
-				a.why = "the heartbeat signing returned an error"
 				strict[w] = 0
-				if model[w] > 0 {
-					r.Probe("error-inside-a-failure-run")
+				r.Probe("signing-reached-despite-unstaking-or-invalid-proposal")
+			}
+			// model
+			switch {
+			case a.signedDespite:
+			default:
+				switch a.outKind {
+				case 0:
+					model[w] = 0
+					strict[w] = 0
+					a.why = "the heartbeat succeeded with enough active members"
+				case 1:
+					model[w]++
+					strict[w]++
+					if model[w] >= c36ClaimAfter && len(a.inactive) > 0 {
+						a.allowClaim = true
+						a.expectClaim = strict[w] >= c36ClaimAfter
+						if !a.expectClaim {
+							r.Probe("claim-due-only-under-lenient-reading")
+						}
+						a.why = fmt.Sprintf("this is consecutive low-activity heartbeat #%d of the wallet (%d/%d active)", model[w], len(a.active), c36GroupSize)
+						if model[w] > c36ClaimAfter {
+							r.Probe("claim-expected-beyond-third")
+						}
+					} else if len(a.inactive) == 0 {
+						a.why = "the set of inactive members is empty"
+					} else {
+						a.why = fmt.Sprintf("this is only consecutive low-activity heartbeat #%d of the wallet", model[w])
+					}
+				default:
+					a.why = "the heartbeat signing returned an error"
+					strict[w] = 0
+					if model[w] > 0 {
+						r.Probe("error-inside-a-failure-run")
+					}
 				}
 			}
 			a.claimFail = tp.Chance("claim-fails", 1, 6)
